@@ -3,17 +3,20 @@
 (*   expr = the React.createElement expression of the emitted script, read by   *)
 (*   the harness's recursive-descent reader into the El format of JsxOps        *)
 (* allow : {allowed, given, raised}                                             *)
-EXTENDS TraceBase, JsxOps
+EXTENDS TraceBase, JsxOps, FiniteSets
 VARIABLES tid, verdict
 vars == <<tid, verdict>>
 SetOfSeq(s) == {s[i] : i \in 1..Len(s)}
+Count(s, x) == Cardinality({i \in 1..Len(s) : s[i] = x})
+\* equal as multisets: every node found is carried, once per occurrence, nothing else
+BagEq(s, t) == Len(s) = Len(t) /\ \A x \in SetOfSeq(s) \cup SetOfSeq(t) : Count(s, x) = Count(t, x)
 Clauses(e) ==
   IF e.k = "conv" THEN
     << <<"C20:ExpressionIsReadable", e.parsed>>,
        <<"C20:ExpressionMirrorsTheComponent", e.parsed => e.expr = El(e.tree)>>,
        <<"C20:CarriesReactAndReactDomWhoseFilesExist", e.reactFirst /\ e.reactFiles>>,
        <<"C20:SurfacesEveryMetadataNodeReachable",
-            SetOfSeq(e.deps) = SetOfSeq(MetaOf(e.tree)) /\ e.nbare = BareMeta(e.tree)>> >>
+            BagEq(e.deps, MetaOf(e.tree)) /\ e.nbare = BareMeta(e.tree)>> >>
   ELSE
     << <<"C20:PropOutsideAllowListRejectedAtConstruction",
            e.raised = (\E i \in 1..Len(e.given) : e.given[i] \notin SetOfSeq(e.allowed))>> >>
